@@ -43,6 +43,10 @@ def connected_hg(rng):
         e = tuple(sorted(rng.sample(nodes, s)))
         h.add_edge(e, weight=3 if h.is_weighted() else None)
     h.add_nodes(nodes)
+    if rng.random() < 0.35:  # calls the library refuses, made before measuring (a refused call must leave no trace)
+        from ..mutate import refused_calls
+
+        refused_calls(rng, h)
     return h, N
 
 
@@ -61,6 +65,13 @@ def walk_case(ctx, rng, idx):
 
         ctx.event("big-hypergraph")
         hb = big_hypergraph(rng, contiguous=True, connected=True, sizes=(2, 2, 3, 4, 5))
+        walk_eval(ctx, rng, idx, hb, hb.num_nodes())
+        return
+    if idx in (4, 6) or (ctx.tier == "thorough" and idx % 700 == 12):
+        from ..gen import core_periphery
+
+        ctx.event("core-periphery-hypergraph")
+        hb = core_periphery(rng, connected_contiguous=True)
         walk_eval(ctx, rng, idx, hb, hb.num_nodes())
         return
     h, N = connected_hg(rng)
